@@ -96,6 +96,7 @@ class Pile(Widget, WidgetContainerMixin, WidgetContainerListContentsMixin):
         if not self.contents:
             return frozenset((Sizing.BOX, Sizing.FLOW))
         strict_box = False
+        box_impossible = False
         has_flow = False
 
         has_fixed = False
@@ -115,6 +116,9 @@ class Pile(Widget, WidgetContainerMixin, WidgetContainerListContentsMixin):
                 flag |= _ContainerElementSizingFlag.WH_WEIGHT
                 if Sizing.BOX in w_sizing:
                     flag |= _ContainerElementSizingFlag.BOX
+                else:
+                    # a WEIGHT item of a box pile is rendered as a box widget
+                    box_impossible = True
                 if Sizing.FLOW in w_sizing:
                     flag |= _ContainerElementSizingFlag.FLOW
                 if Sizing.FIXED in w_sizing and w_sizing & {Sizing.BOX, Sizing.FLOW}:
@@ -157,6 +161,10 @@ class Pile(Widget, WidgetContainerMixin, WidgetContainerListContentsMixin):
                 supported.add(Sizing.FLOW)
             if has_fixed:
                 supported.add(Sizing.FIXED)
+
+        if box_impossible and len(supported) > 1:
+            # GIVEN BOX items allow BOX only when no WEIGHT item is restricted to FLOW / FIXED
+            supported.discard(Sizing.BOX)
 
         return frozenset(supported)
 
